@@ -14,7 +14,8 @@ LEAN_TARGETS = ["PV.Props.C05"]
 EQUIV = {'PV.Equiv.Astro': ['gmst_eq', 'observer_position_eq'], 'PV.Equiv.Look': ['r_clip1', 'look_module_eq', 'look_method_eq']}
 RULE = ("(TLE, time, observer) triples: observers uniform over the globe, at the poles and the date line, at the EXACT "
         "sub-satellite point (lon/lat returned by get_lonlatalt, altitude 0 and just below the satellite), at the antipode, "
-        "with altitudes 0-9 km; module-level function also with geostationary altitudes and array inputs; correspondence: "
+        "with altitudes 0-9 km; module-level function also with geostationary altitudes; both functions with array-valued observers "
+        "(float64, float32, integer-typed whole-degree grids, 2-d); correspondence: "
         "azimuth/elevation and the south/east/zenith components model vs both implementations at 1e-9; oracle: independent "
         "WGS-84 east-north-up frame within 1e-4 deg (azimuth weighted by cos elevation), finiteness everywhere, method vs "
         "module <= 5e-3 deg; distinct = (tle, time, observer)")
@@ -107,6 +108,58 @@ def judge(ctx, case, az, el, ref_az, ref_el, site, tol_deg=1e-4):
     return ok
 
 
+def _mk(kind, xs):
+    if kind == "i64":
+        return np.array(xs, dtype=np.int64)
+    if kind == "f32":
+        return np.array(xs, dtype=np.float32)
+    if kind == "f64_2d":
+        return np.array(xs, dtype=np.float64).reshape(2, -1)
+    return np.array(xs, dtype=np.float64)
+
+
+def _tol(kind):
+    # float32 observers are converted to radians in float32 (1e-7 rad = 6e-6 deg of arc, amplified near the zenith):
+    # the 1e-4 deg claim is stated for real-valued inputs; float32 grids are judged at 2e-3 deg
+    return 2e-3 if kind == "f32" else 1e-4
+
+
+def check_module_array(ctx, t, sat, lons, lats, alts, kind):
+    from pyorbital import orbital
+    k = len(lons)
+    slon, slat, salt = sat
+    shape = _mk(kind, lons).shape
+    az, el = orbital.get_observer_look(np.full(shape, slon), np.full(shape, slat), np.full(shape, salt), t,
+                                       _mk(kind, lons), _mk(kind, lats), _mk(kind, alts))
+    az, el = np.asarray(az, dtype=np.float64).ravel(), np.asarray(el, dtype=np.float64).ravel()
+    th = geo.gmst_ref(t)
+    satp = geo.geodetic_to_eci(slon, slat, salt, th)
+    n0 = len(ctx.violations)
+    for i in range(k):
+        ctx.count("eval_oracle_module_array")
+        ref_az, ref_el = geo.look_ref(satp, lons[i], lats[i], alts[i], th)
+        judge(ctx, {"utc": t.isoformat(), "sat": [slon, slat, salt], "lons": lons, "lats": lats, "alts": alts, "kind": kind,
+                    "index": i, "fn": "module-array"}, float(az[i]), float(el[i]), ref_az, ref_el, "orbital.get_observer_look",
+              tol_deg=_tol(kind))
+    return len(ctx.violations) - n0
+
+
+def check_method_array(ctx, a, b, t, lons, lats, alts, kind, o=None):
+    from pyorbital import orbital
+    o = o or orbital.Orbital("x", line1=a, line2=b)
+    pk, _ = o.get_position(t, normalize=False)
+    th = geo.gmst_ref(t)
+    az, el = o.get_observer_look(t, _mk(kind, lons), _mk(kind, lats), _mk(kind, alts))
+    az, el = np.asarray(az, dtype=np.float64).ravel(), np.asarray(el, dtype=np.float64).ravel()
+    n0 = len(ctx.violations)
+    for i in range(len(lons)):
+        ctx.count("eval_oracle_method_array")
+        ref_az, ref_el = geo.look_ref(pk, lons[i], lats[i], alts[i], th)
+        judge(ctx, {"line1": a, "line2": b, "utc": t.isoformat(), "lons": lons, "lats": lats, "alts": alts, "kind": kind, "index": i,
+                    "fn": "method-array"}, float(az[i]), float(el[i]), ref_az, ref_el, "Orbital.get_observer_look", tol_deg=_tol(kind))
+    return len(ctx.violations) - n0
+
+
 def oracle(ctx):
     from pyorbital import orbital
     n = ctx.size(25, 300)
@@ -134,25 +187,43 @@ def oracle(ctx):
                     worst = max(worst, d)
                     if d > 5e-3:
                         ctx.violation("method_vs_module", case, [az2, el2], "method %r within 5e-3 deg" % [az, el], site="orbital.get_observer_look")
-    # module-level function at geostationary altitudes and with arrays
+    # module-level function at geostationary altitudes and with arrays (float64, float32, integer-typed grids, 2-d)
     for _ in range(ctx.size(300, 5000)):
         r = ctx.rng
         t = dt.datetime(2020, 1, 1) + dt.timedelta(seconds=r.uniform(0, 3e7))
         slon, slat, salt = r.uniform(-180, 180), r.uniform(-10, 10), r.choice([35786.0, r.uniform(300, 36000)])
-        k = r.randrange(1, 5)
-        lons = np.array([r.uniform(-180, 180) for _ in range(k)])
-        lats = np.array([r.uniform(-90, 90) for _ in range(k)])
-        alts = np.array([r.uniform(0, 3) for _ in range(k)])
-        if r.random() < 0.3:
+        k = r.choice([1, 2, 3, 4])
+        kind = r.choice(["f64", "f64", "f64", "i64", "f32", "f64_2d"])
+        if kind == "f64_2d":
+            k = 4
+        lons = [r.uniform(-180, 180) for _ in range(k)]
+        lats = [r.uniform(-90, 90) for _ in range(k)]
+        alts = [r.uniform(0, 3) for _ in range(k)]
+        if kind == "i64":
+            lons, lats, alts = [float(round(x)) for x in lons], [float(round(x)) for x in lats], [float(round(x)) for x in alts]
+        if kind == "f32":
+            lons, lats, alts = ([float(np.float32(x)) for x in lons], [float(np.float32(x)) for x in lats],
+                                [float(np.float32(x)) for x in alts])
+        if kind in ("f64", "f64_2d") and r.random() < 0.3:
             lons[0], lats[0], alts[0] = slon, slat, 0.0
-        az, el = orbital.get_observer_look(np.full(k, slon), np.full(k, slat), np.full(k, salt), t, lons, lats, alts)
-        th = geo.gmst_ref(t)
-        sat = geo.geodetic_to_eci(slon, slat, salt, th)
-        for i in range(k):
-            ctx.count("eval_oracle_module_array")
-            ref_az, ref_el = geo.look_ref(sat, lons[i], lats[i], alts[i], th)
-            judge(ctx, {"utc": t.isoformat(), "sat": [slon, slat, salt], "lon": lons[i], "lat": lats[i], "alt": alts[i], "fn": "module-array"},
-                  float(az[i]), float(el[i]), ref_az, ref_el, "orbital.get_observer_look")
+        ctx.bump("module_array_kind", kind)
+        check_module_array(ctx, t, [slon, slat, salt], lons, lats, alts, kind)
+    # object method with array-valued observers of the same kinds
+    for (a, b, o) in orbits.make_orbitals(ctx, ctx.size(8, 80)):
+        for t in orbits.rand_times(ctx, o, 3):
+            r = ctx.rng
+            kind = r.choice(["f64", "i64", "f32", "f64_2d"])
+            slon, slat, _ = [float(x) for x in o.get_lonlatalt(t)]
+            lons = [slon + r.uniform(-30, 30) for _ in range(4)]
+            lats = [max(-90.0, min(90.0, slat + r.uniform(-30, 30))) for _ in range(4)]
+            alts = [r.uniform(0, 3) for _ in range(4)]
+            if kind == "i64":
+                lons, lats, alts = [float(round(x)) for x in lons], [float(round(x)) for x in lats], [float(round(x)) for x in alts]
+            if kind == "f32":
+                lons, lats, alts = ([float(np.float32(x)) for x in lons], [float(np.float32(x)) for x in lats],
+                                    [float(np.float32(x)) for x in alts])
+            ctx.bump("method_array_kind", kind)
+            check_method_array(ctx, a, b, t, lons, lats, alts, kind, o)
     ctx.note("worst method-vs-module difference = %.3g deg" % worst)
 
 
@@ -163,6 +234,15 @@ def match_known(entry, v):
 def replay(ctx, case):
     from pyorbital import orbital
     inp = case.get("input", case)
+    if inp.get("fn") == "module-array":
+        n = check_module_array(ctx, dt.datetime.fromisoformat(inp["utc"]), inp["sat"], inp["lons"], inp["lats"], inp["alts"], inp["kind"])
+        print("module-array case", inp, "violations", n)
+        return 1 if n else 0
+    if inp.get("fn") == "method-array":
+        n = check_method_array(ctx, inp["line1"], inp["line2"], dt.datetime.fromisoformat(inp["utc"]), inp["lons"], inp["lats"],
+                               inp["alts"], inp["kind"])
+        print("method-array case", inp, "violations", n)
+        return 1 if n else 0
     if "line1" not in inp:
         print(inp)
         return 0
